@@ -897,9 +897,17 @@ retry:
 // unregisters a connected player
 func (p *Proxy) unregisterConnection(player *connectedPlayer) (found bool) {
 	p.muP.Lock()
-	_, found = p.playerIDs[player.ID()]
-	delete(p.playerNames, strings.ToLower(player.Username()))
-	delete(p.playerIDs, player.ID())
+	// Only remove the entries that belong to this very connection. A connection that was
+	// never registered (e.g. a rejected duplicate login) must not unregister the
+	// legitimate player holding the same name or id.
+	if cur, ok := p.playerIDs[player.ID()]; ok && cur == player {
+		delete(p.playerIDs, player.ID())
+		found = true
+	}
+	lowerName := strings.ToLower(player.Username())
+	if cur, ok := p.playerNames[lowerName]; ok && cur == player {
+		delete(p.playerNames, lowerName)
+	}
 	empty := len(p.playerIDs) == 0
 	p.muP.Unlock()
 	if empty {
